@@ -194,6 +194,24 @@ pub fn run_main(sb: &Sandbox, spec: &ProcSpec, dumps: bool) -> (RunSummary, Opti
     (sum, compiled, shell)
 }
 
+/// Like `run_main`, but the same simulated process first compiles `warm_path` (a long-lived
+/// host compiles many programs on one thread; what was compiled before must not matter).
+pub fn run_main_after(sb: &Sandbox, spec: &ProcSpec, warm_path: &str) -> (RunSummary, Option<Box<Compiled>>) {
+    let warm = vec![s("goml"), s("run"), sb.path(warm_path)];
+    let args = vec![s("goml"), s("run"), sb.path("main.gom")];
+    let mut r = run_process(&sb.root, spec, None, move || {
+        let _ = cli::entry(&warm);
+        cli::entry(&args)
+    });
+    let (mut sum, _) = summarise_run(sb, &r);
+    let mut compiled = None;
+    if let Some(CliOut::Compiled(c)) = r.value.take() {
+        sum.go_text = c.go_text.clone();
+        compiled = Some(c);
+    }
+    (sum, compiled)
+}
+
 /// Arguments of `goml check|build` for one package.
 pub fn pkg_args(
     sb: &Sandbox,
